@@ -563,51 +563,63 @@ class Engine:
         return self.new_cell(st, SetT(elt.ty), z3.Lambda([x], body))
 
     def e_DictComp(self, node, st):
-        """{k(e): v(e) for e in L if c(e)} over an indexed source: a fresh dict whose domain is the image of the
-        filtered source under k and whose value at k(e) is v(e) of the LAST such e (Python's overwrite order)."""
-        if len(node.generators) != 1:
-            raise Unsupported('nested dict comprehension')
-        g = node.generators[0]
-        src = self.eval(g.iter, st)
-        if src.ty.kind == 'Optional':
-            src = self.coerce(src, src.ty.args[0], st, 'iterated value')
-        m = self.iter_model(src, st)
-        if m.setlike is not None:
-            raise Unsupported('dict comprehension over an unordered iterable')
+        """{k(e): v(e) for e in L if c(e)} (one or two nested generators over indexed sources): a fresh dict whose
+        domain is the image of the filtered source under k and whose value at k(e) is v(e) of the LAST such e in
+        iteration order (Python's overwrite order)."""
+        gens = node.generators
+        if len(gens) not in (1, 2):
+            raise Unsupported('dict comprehension with more than two generators')
+        if getattr(self, 'quant_depth', 0):
+            raise Unsupported('dict comprehension inside a quantified context')
 
-        def instance(i):
+        def instance(tag):
+            """One symbolic iteration: position variables, the condition of being an iteration, key and value."""
             saved = dict(st.env)
+            pos, conds, pushed = [], [], 0
+            self.quant_depth = getattr(self, 'quant_depth', 0) + 1
             try:
-                dom = z3.And(0 <= i, i < m.n)
-                st.guards.append(dom)
-                self.quant_depth = getattr(self, 'quant_depth', 0) + 1
-                try:
+                for g in gens:
+                    src = self.eval(g.iter, st)
+                    if src.ty.kind == 'Optional':
+                        src = self.coerce(src, src.ty.args[0], st, 'iterated value')
+                    m = self.iter_model(src, st)
+                    if m.setlike is not None:
+                        raise Unsupported('dict comprehension over an unordered iterable')
+                    i = z3.Int(fresh_name('d' + tag))
+                    pos.append(i)
+                    dom = z3.And(0 <= i, i < m.n)
+                    conds.append(dom)
+                    st.guards.append(dom)
+                    pushed += 1
                     self.bind_target(g.target, m.item(i, st), st)
-                    conds = [self.truth(self.eval(c, st), st) for c in g.ifs]
-                    for c in conds:
-                        st.guards.append(c)
-                    try:
-                        kv, vv = self.eval(node.key, st), self.eval(node.value, st)
-                    finally:
-                        for _ in conds:
-                            st.guards.pop()
-                finally:
-                    st.guards.pop()
-                    self.quant_depth -= 1
+                    for c in g.ifs:
+                        b = self.truth(self.eval(c, st), st)
+                        conds.append(b)
+                        st.guards.append(b)
+                        pushed += 1
+                kv, vv = self.eval(node.key, st), self.eval(node.value, st)
             finally:
+                for _ in range(pushed):
+                    st.guards.pop()
+                self.quant_depth -= 1
                 st.env = saved
-            return z3.And(dom, *conds), kv, vv
-        i, j = z3.Int(fresh_name('di')), z3.Int(fresh_name('dj'))
-        ci, ki, vi = instance(i)
-        cj, kj, _ = instance(j)
+            return pos, z3.And(*conds), kv, vv
+        pi, ci, ki, vi = instance('i')
         dt = Ty('Dict', (ki.ty, vi.ty))
         d = z3.Const(fresh_name('dictcomp'), sort_of(dt))
         dom_d, val_d = T.dict_dom(dt, d), T.dict_val(dt, d)
-        kti, ktj, vti = self.as_term(ki, st), self.as_term(kj, st), self.as_term(vi, st)
+        kti, vti = self.as_term(ki, st), self.as_term(vi, st)
         x = z3.Const(fresh_name('dk'), sort_of(ki.ty))
-        st.pc.append(z3.ForAll([x], T.Sel(dom_d, x) == z3.Exists([i], z3.And(ci, kti == x))))
-        st.pc.append(z3.ForAll([i], z3.Implies(z3.And(ci, z3.ForAll([j], z3.Implies(z3.And(j > i, cj), ktj != kti))),
-                                               T.Sel(val_d, kti) == vti)))
+        # w(x): the position of the LAST iteration that writes key x (it exists for every key of the result: the
+        # iteration space is finite); the dict holds the value written there
+        w = [z3.Function(fresh_name('dlast'), sort_of(ki.ty), z3.IntSort()) for _ in pi]
+        at_w = [(p_, wf(x)) for p_, wf in zip(pi, w)]
+        c_w, k_w, v_w = z3.substitute(ci, *at_w), z3.substitute(kti, *at_w), z3.substitute(vti, *at_w)
+        wk = [wf(kti) for wf in w]
+        not_later = pi[0] <= wk[0] if len(gens) == 1 else z3.Or(pi[0] < wk[0], z3.And(pi[0] == wk[0], pi[1] <= wk[1]))
+        st.pc.append(z3.ForAll(pi, z3.Implies(ci, z3.And(T.Sel(dom_d, kti), not_later))))
+        st.pc.append(z3.ForAll([x], z3.Implies(T.Sel(dom_d, x), z3.And(c_w, k_w == x, T.Sel(val_d, x) == v_w)),
+                               patterns=[T.Sel(dom_d, x)]))
         return self.new_cell(st, dt, d)
 
     def e_JoinedStr(self, node, st):
@@ -1025,6 +1037,8 @@ class Engine:
         prov = getattr(self, 'concat_prov', {}).get(arr.get_id())
         if prov is not None and z3.eq(prov[0], arr):
             _, la, aa, lb, ab = prov
+            if z3.is_int_value(lb) and lb.as_long() == 1:
+                return z3.Or(self.seq_member(la, aa, xt), T.Sel(ab, I0) == xt)     # a one-element tail
             return z3.Or(self.seq_member(la, aa, xt), self.seq_member(lb, ab, xt))
         i = z3.Int(fresh_name('j'))
         return z3.Exists([i], z3.And(0 <= i, i < ln, T.Sel(arr, i) == xt))
